@@ -259,6 +259,8 @@ def ref_param_values(task, spec, variant, name=None):
             v = data[nic]
         else:
             v = p.get('default')
+        if p.get('dtype') == 'path' and isinstance(v, dict) and set(v) == {'$path'}:
+            v = v['$path']
         if p.get('dtype') == 'path' and isinstance(v, str):
             from pathlib import Path
             v = Path(v)
